@@ -181,11 +181,14 @@ PROPS = {
         harnesses=[
             dict(run="pkg/zzc11.VerifC11Memkv", quick=dict(entries=2, ops=2), thorough=dict(entries=3, ops=2), covers=["batch-applied", "batch-refused", "get-hit", "iter-several", "iter-descending", "changed-under-iterator", "done"]),
             dict(run="pkg/zzc11.VerifC11MemkvMetrics", quick=dict(entries=1, ops=1), thorough=dict(entries=2, ops=1), covers=["batch-applied", "batch-refused", "done"]),
+            dict(run="pkg/zzc11.VerifC11Badger", quick=dict(entries=2, ops=1), thorough=dict(entries=2, ops=2), covers=["batch-applied", "batch-refused", "get-hit", "iter-several", "iter-descending", "changed-under-iterator", "done"]),
+            dict(run="pkg/zzc11.VerifC11BadgerMetrics", quick=dict(entries=1, ops=1), thorough=dict(entries=2, ops=1), covers=["batch-applied", "batch-refused", "done"]),
+            dict(run="pkg/zzc11.VerifC11TiKV", quick=dict(entries=2, ops=1), thorough=dict(entries=2, ops=2), covers=["batch-applied", "batch-refused", "get-hit", "iter-several", "iter-descending", "changed-under-iterator", "done"], validate=2),
         ],
-        bounds=dict(quick="in-memory adapter and metrics wrapper only: 2 initial entries with symbolic keys of 1..2 bytes over {a,b,c} and symbolic values; then one batch of 1..2 operations (put-if-absent / CAS / put / delete with symbolic key, value, expected value; several conditions, a condition on a key written or deleted earlier in the batch), or one Get, one Del, one compare-and-delete (entry optionally changed under the iterator), or one iteration with symbolic bounds in either direction and limit 0..2 — differential against the contract store",
-                    thorough="3 initial entries"),
-        outside="the Badger and TiKV adapters (their engine models were not built: see DESIGN.md 'not covered'); TTL expiry inside engines; keys longer than 2 bytes",
-        assumptions=["github.com/huandu/skiplist is replaced by a sorted-sequence model; every counterexample is replayed on the real skiplist"],
+        bounds=dict(quick="each of memkv, Badger, TiKV (and the metrics wrapper over memkv and over Badger): 2 initial entries with symbolic keys of 1..2 bytes over {a,b,c} and symbolic values; then one batch of 1 operation (memkv: 1..2) of put-if-absent / CAS / put / delete with symbolic key, value, expected value and TTL flag, or one Get, one Del, one compare-and-delete (entry optionally really changed under the iterator), or one iteration with symbolic bounds in either direction and limit 0..2 — differential against the contract store",
+                    thorough="batches of up to 2 operations on every engine (several conditions, a condition on a key written or deleted earlier in the batch); 3 initial entries on memkv"),
+        outside="the engines themselves (Badger's SSI, TiKV's percolator and regions: their client libraries are replaced by models, every counterexample is replayed on the real library / the mock cluster); TTL expiry inside engines; concurrent transactions; keys longer than 2 bytes; a rewrite with the identical value under an iterator (the contract allows delete-if-value-equal or delete-if-version-equal)",
+        assumptions=["github.com/huandu/skiplist, github.com/dgraph-io/badger and github.com/tikv/client-go/v2 are replaced by engine models (sorted sequences with snapshots and versions); counterexamples and sampled paths are replayed on the real libraries (Badger in a temp dir, client-go's mock TiKV cluster)"],
     ),
     "C19": dict(
         harnesses=[
@@ -202,8 +205,8 @@ PROPS = {
         harnesses=[
             dict(run="pkg/zzc12.VerifC12Engines", quick=dict(requests=2), thorough=dict(requests=3), covers=["write-ok", "compaction", "done"]),
         ],
-        bounds=dict(quick="the same sequence of 2 symbolic requests (create / update / delete / get / list with limit / compact+count; 2 prefix-related keys, symbolic values, expected and read revisions) on three nodes: contract store, real in-memory adapter, metrics wrapper around the in-memory adapter; pairwise identical answers",
+        bounds=dict(quick="the same sequence of 2 symbolic requests (create / update / delete / get / list with limit / compact+count; 2 prefix-related keys, symbolic values, expected and read revisions) on five nodes: contract store, in-memory adapter, Badger adapter, TiKV adapter (mock cluster natively), metrics wrapper over Badger; pairwise identical answers",
                     thorough="sequences of 3 requests"),
-        outside="the Badger and TiKV engines (no engine models were built; their adapters' known deviations are listed in DESIGN.md 'not covered'); watch events across engines; concurrent histories; time-based expiry (engines differ by design)",
+        outside="watch events across engines; concurrent histories; time-based expiry (engines differ by design: SupportTTL); multi-region TiKV (partitioning is C13's subject)",
     ),
 }
